@@ -22,6 +22,7 @@ or the batching, and under which it agrees with the tree it serves - each a nece
  5 leaf centre = corner + (coordinate + 1/2) leaf width with leaf width = W / 2^(H-1) and corner = centre - W/2,
    one function shared by P2M and L2P.
 """
+import os
 import re
 
 import sympy
@@ -681,6 +682,83 @@ def no_process_state(facts, res, subdir, R, determined=None):
     return len([v for v in res.violations if v["rule"] == R and v["key"].startswith("static-local:")])
 
 
+def strided_loops(facts, res, R, prefix, fns=None):
+    """an unrolled loop `for(j = a; j < B; j += s)` with a literal step s >= 2 processes whole chunks of s elements: unless B - a is a
+    multiple of s by construction (every coefficient of the difference, as a polynomial in the integer quantities it names, divisible by
+    s), a remainder must be handled after it (a following statement of the same block that uses the counter or a loop over the same
+    arrays); otherwise, for the values of the bound that are not a multiple of s, the last elements are never processed - in the
+    Fourier-space product of the uniform kernel, the last coefficients of every transfer, for the orders whose coefficient count is odd"""
+    import sympy
+    n = 0
+    cand = fns if fns is not None else [f_ for f_ in list(facts.functions) + [m_ for c_ in facts.classes for m_ in facts.methods_of(c_["name"])] if tbf.body(f_) is not None and not f_.get("inst") and tbf.rel(facts.path_of(f_)).startswith(prefix)]
+    seen = set()
+    for fn in cand:
+        if id(fn) in seen:
+            continue
+        seen.add(id(fn))
+        body = tbf.body(fn)
+        tbf.link_parents(body)
+        for L in walk(body):
+            if L.get("k") != "ForStmt" or len(L.get("c", [])) < 4 or L["c"][2] is None or L["c"][1] is None:
+                continue
+            inc = strip(L["c"][2])
+            if not (inc.get("k") == "CompoundAssignOperator" and inc.get("op") == "+=" and strip(kids(inc)[1]).get("k") == "IntegerLiteral" and int(strip(kids(inc)[1])["val"]) >= 2):
+                continue
+            step = int(strip(kids(inc)[1])["val"])
+            var = strip(kids(inc)[0])
+            cond = strip(L["c"][1])
+            if cond.get("k") != "BinaryOperator" or cond.get("op") not in ("<", "<=", "!="):
+                continue
+            n += 1
+
+            def poly(e):
+                e = strip(e)
+                k = e.get("k")
+                if k == "IntegerLiteral":
+                    return sympy.Integer(e["val"])
+                if k == "UnaryOperator" and e.get("op") == "-":
+                    return -poly(kids(e)[0])
+                if k == "BinaryOperator" and e.get("op") in ("+", "-", "*"):
+                    a_, b_ = poly(kids(e)[0]), poly(kids(e)[1])
+                    return {"+": a_ + b_, "-": a_ - b_, "*": a_ * b_}[e["op"]]
+                if (k.endswith("CastExpr") or k in ("ParenExpr", "CXXFunctionalCastExpr")) and len(kids(e)) == 1:
+                    return poly(kids(e)[0])
+                return sympy.Symbol("v_" + re.sub(r"\W", "_", facts.ntext(e))[:40], integer=True)
+            lhs, rhs = kids(cond)
+            # j + c < E   <=>   j < E - c
+            B = poly(rhs) - (poly(lhs) - sympy.Symbol("v_" + re.sub(r"\W", "_", facts.ntext(var))[:40], integer=True))
+            init = L["c"][0]
+            a = None
+            if init is not None:
+                for v_ in walk(init):
+                    if v_.get("k") == "VarDecl" and v_.get("did") == var.get("did") and kids(v_):
+                        a = poly(kids(v_)[0])
+                    if v_.get("k") == "BinaryOperator" and v_.get("op") == "=" and strip(kids(v_)[0]).get("did") == var.get("did"):
+                        a = poly(kids(v_)[1])
+            if cond.get("op") == "<=":
+                B = B + 1
+            exact = False
+            if a is not None:
+                d = sympy.expand(B - a)
+                exact = all(sympy.Integer(c_) % step == 0 for c_ in sympy.Poly(d, *sorted(d.free_symbols, key=str)).coeffs()) if d.free_symbols else (int(d) % step == 0)
+            # remainder handling after the loop, in the same block
+            par = L.get("_p")
+            rem = False
+            if par is not None and par.get("k") == "CompoundStmt":
+                after = kids(par)[kids(par).index(L) + 1:]
+                arrays = set(strip(kids(y)[0]).get("did") for y in walk(L["c"][-1]) if y.get("k") == "ArraySubscriptExpr" and strip(kids(y)[0]).get("k") == "DeclRefExpr")
+                for st_ in after:
+                    for y in walk(st_):
+                        if y.get("k") == "DeclRefExpr" and (y.get("did") == var.get("did") or y.get("did") in arrays):
+                            rem = True
+            res.instance(R, "%s loop@%d" % (fn["qname"], L["l"][1]), facts.loc(L), "step %d over [%s, %s): range a multiple of the step by construction: %s; remainder handled after the loop: %s" % (step, a, B, exact, rem))
+            if not exact and not rem:
+                res.violation(R, tbf.rel(facts.path_of(L)), fn["qname"], "no-remainder@%s" % fn["name"], L["l"][1],
+                              "`%s` advances by %d and nothing after the loop handles what is left when %s is not a multiple of %d: up to %d trailing elements are never processed for those values (here: the last Fourier coefficient(s) of the product for the orders with an odd coefficient count - the accuracy then no longer improves with the order)"
+                              % (facts.ntext(L)[:70].split("{")[0], step, sympy.expand(B - a) if a is not None else B, step, step - 1))
+    return n
+
+
 def basis_is_polynomial(facts, res, cls="FUnifRoots", R="C05.10.basis-polynomial"):
     """the interpolation basis L_n and its derivative are polynomials in the evaluation point: in the functions of the roots class that take
     the point (a floating parameter), no division has a denominator that depends on it (flow-insensitive dependence through the locals).
@@ -733,6 +811,19 @@ def basis_is_polynomial(facts, res, cls="FUnifRoots", R="C05.10.basis-polynomial
 
 def run(res, tier):
     facts = tbf.scan("core")
+    res.rule("C05.1b no class of the uniform kernel has a mutable data member (rule C04.5b)")
+    import c04 as _c04
+    nm5 = _c04.no_mutable_members(facts, res, "C05.1.copies-isolated", "src/kernels/unifkernel/")
+    res.floor("C05.1b", nm5, 5, "classes examined for mutable members")
+    res.rule("C05.11 unrolled loops of the uniform kernel (literal step >= 2) cover their range: the range is a multiple of the step by construction or a remainder is handled after the loop")
+    strided_loops(facts, res, "C05.11.strided-loops", "src/kernels/unifkernel/")
+    fx11 = os.path.join(tbf.VERIF, "fixtures", "c05_strided.cpp")
+    ff11 = tbf.scan_file(fx11, [], [os.path.join(tbf.VERIF, "fixtures") + os.sep])
+    ctl11 = tbf.Result("C05")
+    n11 = strided_loops(ff11, ctl11, "C05.11.strided-loops", "", fns=list(ff11.functions))
+    if n11 != 3 or len(ctl11.violations) != 1 or "bad" not in ctl11.violations[0]["function"]:
+        raise AnalysisBroken("positive control fixtures/c05_strided.cpp: %d loops, %d reported (3 loops, 1 reported expected)" % (n11, len(ctl11.violations)))
+    res.instance("C05.11.strided-loops", "positive control", "verif:fixtures/c05_strided.cpp", "3 strided loops, the one without remainder reported")
     res.rule("C05.10 the interpolation basis (FUnifRoots::L, dL) is evaluated as a polynomial in the point: no denominator depends on the evaluation point")
     nb = basis_is_polynomial(facts, res)
     res.floor("C05.10", nb, 2, "divisions in the basis functions")
@@ -767,7 +858,13 @@ def run(res, tier):
     level_scaling(facts, res, geo)
     leaf_centre(facts, res, cobj, geo)
     res.rule("C05.7 transfer terms: every term an M2L handler overload adds to the transformed local expansion depends (through its locals) on the parameter it derives from the level of the call - the scale in the homogeneous handler, the level selecting the table in the non-homogeneous one - and on the transfer code")
-    res.floor("C05.7", transfer_terms(facts, res), 2, "accumulations in the M2L handlers")
+    try:
+        res.floor("C05.7", transfer_terms(facts, res), 2, "accumulations in the M2L handlers")
+    except AnalysisBroken:
+        # the accumulation may have been rewritten on raw (re, im) pairs: when another clause has already reported that rewriting
+        # (C05.11: an unrolled loop without its remainder), its verdict stands; otherwise this clause cannot follow the code
+        if not [v_ for v_ in res.violations if v_["rule"].startswith("C05.11") and not tbf.is_known("C05", v_, tbf.load_known())]:
+            raise
     res.rule("C05.9 full-order loops: every loop of the kernel's operators, of the interpolator's apply* functions and of the M2L handler's applyFC runs over a range fixed by template constants / members fixed at construction and enclosing loop variables, or over the items handed over - never over a bound computed from the data of the call (rule of C04.10)")
     n9 = 0
     for k_ in (K, "FUnifInterpolator", "FUnifM2LHandler"):
